@@ -1,6 +1,9 @@
 (* C05 - A report exactly when every sale is covered.  Statements only. *)
 From Coq Require Import QArith Qcanon ZArith List Bool Sorted.
 Require Import CGT.Model.Num CGT.Model.Match CGT.Proofs.MatchFacts CGT.Proofs.MatchInv CGT.Proofs.Examples.
+Require Import CGT.Model.Ledger CGT.Model.Agg CGT.Model.Report CGT.Model.Validate CGT.Proofs.ReportAdd CGT.Proofs.ValidWf.
+From Coq Require Import String.
+Open Scope Qc_scope.
 Import ListNotations.
 Open Scope Qc_scope.
 
@@ -25,6 +28,19 @@ Theorem C05_accepted_iff_covered : forall w ds offs,
   | None => exists s, run w ds = inr s
   end.
 Proof. exact run_accepts_iff_covered. Qed.
+
+(* For every validated ledger and each of its securities (capital returns permitting): accepted exactly when every sale is covered. *)
+Theorem C05_validated_ledgers : forall P l s offs, has_errors (map t_op l) = false ->
+  prepass false [] (days_of_tick l s) = inr offs ->
+  match first_uncovered 0 (days_of_tick l s) with
+  | Some z => sr_res (eval_tick P l s) = inl (EExceedsHolding z)
+  | None => exists st, sr_res (eval_tick P l s) = inr st
+  end.
+Proof.
+  intros P l s offs Hv Hp. destruct (validated_days l s Hv) as [W S]. unfold eval_tick. cbn [sr_res].
+  exact (run_accepts_iff_covered (p_window P) _ offs W S Hp).
+Qed.
+Print Assumptions C05_validated_ledgers.
 
 Example C05_witness_covered : wf_days ex1 /\ sorted_days ex1 /\ first_uncovered 0 ex1 = None.
 Proof. split; [exact ex1_wf|]. split; [exact ex1_sorted|vm_compute; reflexivity]. Qed.
